@@ -174,6 +174,17 @@ CHECKS.update({
             "DESIGN.md section 4, C20"),
 })
 
+CHECKS.update({
+    "C15": ("Hypothesis-generated topologies and data-table handlers against an independent mesh reference model; mirror relation; registration-order permutations; merge laws",
+            "Generated topologies (2..5 devices, parallel links) and 1..4 handler tables (direct/indirect, name templates, filters, port "
+            "processors, VRF plane, LAG/SVI/sub-interface selection): execute_for on every device must equal the reference model's peers "
+            "or raise the conflict error exactly when the model finds one, sessions must be mirrored on both ends, the outcome must be "
+            "the same for every registration order (<=24), and merge() must obey the declared mergers on random model instances. "
+            "Exploration.",
+            "Trusted: the reference mesh model in vf/props/c15.py (own template matcher, filter evaluation, field merge); fake Storage/Device.",
+            "DESIGN.md section 4, C15"),
+})
+
 NOT_YET = {}
 
 
